@@ -79,7 +79,13 @@ def build_and_check(case):
     err = None
     try:
         from pycoin.symbols.btc import network
-        sp = [network.tx.Spendable(*p) for p in parts]
+        marked = form.endswith("-marked")
+        form = form.split("-")[0]
+        if marked:
+            # bookkeeping fields of a spendable record (seen in block 7, seems spent, spent in block 9) are not amounts
+            sp = [network.tx.Spendable(*(p + ((7, True, 9) if i % 2 == 0 else (3, False, 0)))) for i, p in enumerate(parts)]
+        else:
+            sp = [network.tx.Spendable(*p) for p in parts]
         if form == "text":
             sp = [s.as_text() for s in sp]
         elif form == "dict":
@@ -196,9 +202,10 @@ class Split(Driver):
 class Forms(Split):
     id = "C13.forms"
     rule = ("C13.split's oracle over spendables given as objects / text / dicts x unspecified payables spelled as "
-            "address / (address, 0) / alternating, on a reduced value grid")
+            "address / (address, 0) / alternating, with and without the bookkeeping fields of the records set (block indices, seems-spent flag), "
+            "on a reduced value grid")
     spells = ("plain", "tuple0", "alt")
-    forms = ("obj", "text", "dict")
+    forms = ("obj", "text", "dict", "obj-marked", "text-marked", "dict-marked")
 
     def __init__(self, tier, seed):
         Split.__init__(self, tier, seed)
@@ -216,10 +223,11 @@ class Forms(Split):
 SRC = {
     "A": [(5, "51"), (5, "52"), (7, "52")],
     "B": [(9, "53"), (5, "51")],
+    "C": [(11, "76a914" + "11" * 20 + "88ac"), (13, "a914" + "22" * 20 + "87")],      # scripts that contain data pushes
 }
-OUTPOINTS = [("A", 0), ("A", 1), ("A", 2), ("B", 0), ("B", 1)]
+OUTPOINTS = [("A", 0), ("A", 1), ("A", 2), ("B", 0), ("B", 1), ("C", 0), ("C", 1)]
 PER_INPUT = ["amount+1", "amount-1", "script-first-byte", "script-last-byte", "script-truncated", "script-extended",
-             "script-empty", "sibling-0", "sibling-1", "sibling-2", "index=len", "index=len+1", "index=2^32-1", "amount-as-other-source"]
+             "script-empty", "script-same-disassembly", "sibling-0", "sibling-1", "sibling-2", "index=len", "index=len+1", "index=2^32-1", "amount-as-other-source"]
 PER_DB = ["missing", "wrong-id", "source-amount-changed", "source-script-changed", "source-output-dropped",
           "forged-source-amount", "forged-source-script"]
 
@@ -266,6 +274,12 @@ def unspents_case(case):
             r[1] = r[1] + b"\x00"
         elif kind == "script-empty":
             r[1] = b""
+        elif kind == "script-same-disassembly":
+            # the first 20-byte data push re-encoded with OP_PUSHDATA1: other bytes, same disassembly text
+            k = r[1].find(b"\x14")
+            if k < 0 or len(r[1]) < k + 21:
+                return None
+            r[1] = r[1][:k] + b"\x4c\x14" + r[1][k + 1:]
         elif kind.startswith("sibling-"):
             s = int(kind[-1])
             outs = src[name].txs_out
@@ -316,6 +330,13 @@ def unspents_case(case):
         spend = [Tx.Spendable(r[0], r[1], r[2], r[3]) for r in rec]
         tx = Tx(1, [s.tx_in() for s in spend], [Tx.TxOut(1, b"\x51")])
         tx.set_unspents(spend)
+        if case.get("signed"):
+            # unlocking data present (as after signing): a script on even inputs, a witness on odd ones and on the first
+            for k, ti in enumerate(tx.txs_in):
+                if k % 2 == 0:
+                    tx.set_witness(k, [b"\x30\x06\x02\x01\x01\x02\x01\x01\x01", b"\x02" + b"\x11" * 32])
+                if k % 2 == 1 or k == 0:
+                    ti.script = b"\x51"
     except Exception as e:
         return BAD("construction", "constructible", "EXC %s: %s" % (type(e).__name__, e), clause="construct")
     try:
@@ -358,10 +379,11 @@ class Unspents(Driver):
         n = len(unit["inputs"])
         discs = [["none"]] + [[k, p] for p in range(n) for k in PER_INPUT + PER_DB]
         for d in discs:
-            case = dict(inputs=unit["inputs"], discrepancy=d)
-            out = unspents_case(case)
-            if out is not None:
-                yield case, out
+            for signed in (False, True):
+                case = dict(inputs=unit["inputs"], discrepancy=d, signed=signed)
+                out = unspents_case(case)
+                if out is not None:
+                    yield case, out
 
     def run(self, case):
         return unspents_case(case) or OK("trivial-inapplicable")
